@@ -255,6 +255,7 @@ def load(mutations=None):
         for v in list(m.__dict__.values()):
             if hasattr(v, 'cache_clear') and hasattr(v, '__wrapped__'):
                 _caches.append(v)
+    _snapshot_module_globals(mods)
     r = Repo()
     r.modules = mods
     r.pkg = mods['fast_ticc']
@@ -283,9 +284,41 @@ def load(mutations=None):
     return r
 
 
+_GLOBALS0 = []      # (module dict, name, pristine deep copy) of module-level lists/dicts/sets
+
+
+def _snapshot_module_globals(mods):
+    import copy
+    del _GLOBALS0[:]
+    for m in mods.values():
+        for k, v in list(m.__dict__.items()):
+            if k.startswith('__'):
+                continue
+            if isinstance(v, (list, dict, set)):
+                try:
+                    _GLOBALS0.append((m.__dict__, k, copy.deepcopy(v)))
+                except Exception:
+                    pass
+
+
 def clear_caches():
+    """Every path starts from the state of a fresh import: functools caches cleared and
+    module-level mutable globals restored (a path must not see what another one left behind)."""
+    import copy
     for c in _caches:
         c.cache_clear()
+    for (d, k, v0) in _GLOBALS0:
+        cur = d.get(k)
+        if isinstance(cur, list) and isinstance(v0, list):
+            cur[:] = copy.deepcopy(v0)
+        elif isinstance(cur, dict) and isinstance(v0, dict):
+            cur.clear()
+            cur.update(copy.deepcopy(v0))
+        elif isinstance(cur, set) and isinstance(v0, set):
+            cur.clear()
+            cur.update(v0)
+        else:
+            d[k] = copy.deepcopy(v0)
 
 
 class _MutatingFinder:
